@@ -350,36 +350,7 @@ def generate(repo):
     out.add('g_phospho', phospho)
 
     # ---- HTML rendering and palette
-    def html():
-        f = S('get_HTMLColorString')
-        body = strip_doc(f.body)
-        src = [ast.unparse(x) for x in body]
-        need(src[1] == 'count = -1' and src[-1] == 'return colorString', 'HTML prologue/epilogue')
-        head = const(body[0].value)
-        need(isinstance(body[2], ast.For) and ast.unparse(body[2].iter) == 'self.seq', 'HTML loop')
-        lb = body[2].body
-        ls = [ast.unparse(x) for x in lb]
-        need(ls[0] == 'count = count + 1', 'HTML count increment first')
-        mods = []
-        for st in lb[1:3]:
-            need(isinstance(st, ast.If) and isinstance(st.test, ast.Compare) and ast.unparse(st.test.left).startswith('np.mod(count, ')
-                 and const(st.test.comparators[0]) == 0 and len(st.body) == 1, 'HTML block test')
-            k = const(st.test.left.args[1])
-            frag = const(st.body[0].value.right)
-            need(ast.unparse(st.body[0]).startswith('colorString = colorString + '), 'HTML block append')
-            mods.append((k, frag))
-        need(ls[3] == 'color = self.aminoAcidColorMap[residue]', 'HTML colour lookup')
-        fmt = lb[4].value
-        need(isinstance(fmt, ast.BinOp) and isinstance(fmt.op, ast.Mod) and
-             ast.unparse(fmt.right) == '(colorString, color, residue)', 'HTML span format')
-        tail = const(body[3].value.right)
-        need(ast.unparse(body[3]).startswith('colorString = colorString + '), 'HTML footer append')
-        return ('Definition g_html_header : string := %s.\nDefinition g_html_footer : string := %s.\n'
-                'Definition g_html_span_format : string := %s.\n'
-                'Definition g_html_blocks : list (nat * string) := %s.' % (
-                    coq_str(head), coq_str(tail), coq_str(const(fmt.left)),
-                    coq_list(['(%d%%nat, %s)' % (k, coq_str(fr)) for k, fr in mods])))
-    out.add('g_html', html)
+    # get_HTMLColorString is tied semantically (g_minipy -> Props/Tie/minipy_html_tie.v)
 
     def palette():
         f = S('set_HTMLColorResiduePalette')
